@@ -193,6 +193,11 @@ class C17(Prop):
                            ('cagr', a['cagr'], js['cagr']), ('max drawdown vs performance', a['maxdd'], js['maxdd'])):
             if not ok(x, y, 1e-12):
                 F.append('tearsheet / JSON / performance disagree on %s: %s vs %s' % (name, x, y))
+        jb = a.get('json_bench')
+        if jb:
+            for name in ('sharpe', 'sortino', 'cagr', 'maxdd', 'duration', 'ann_vol'):
+                if not ok(js[name], jb[name], 1e-12):
+                    F.append('JSON export: the same curve as benchmark reports %s = %s, as strategy %s' % (name, jb[name], js[name]))
         if not ok(js['std'] * math.sqrt(P), js['ann_vol'], 1e-9):
             F.append('JSON annualised volatility %s, sqrt(periods) x std = %s' % (js['ann_vol'], js['std'] * math.sqrt(P)))
         for name in ('dd', 'returns', 'cum'):
